@@ -302,8 +302,8 @@ class Interp:
 
     def e_Set(self, node, fr):
         vals = self.eval_elts(node.elts, fr)
-        if all(isinstance(v, (str, int, Fraction)) for v in vals):
-            return set(vals)
+        if all(isinstance(v, (str, int, Fraction, type(None))) for v in vals):
+            return set(vals)          # concrete members ({None, "r", "1"})
         raise Unsupported("set display with symbolic members")
 
     def eval_elts(self, elts, fr):
@@ -335,7 +335,12 @@ class Interp:
                 parts.append(str(v.value))
             else:
                 parts.append("{}")
-        return "".join(parts)        # A2: f-string contents are dropped
+        out = FStr("".join(parts))   # A2: f-string contents are dropped (the text is "{}" per field)
+        # ... but plain-name fields are kept on the side (format specs such as f"0{n}b")
+        out.names = [v.value.id if isinstance(v, ast.FormattedValue) and isinstance(v.value, ast.Name)
+                     else None for v in node.values if not isinstance(v, ast.Constant)]
+        out.values = [fr.lookup(n)[1] if n is not None else None for n in out.names]
+        return out
 
     def e_Lambda(self, node, fr):
         return FuncRef(fr.module, "<lambda>", node, closure=fr)
@@ -457,6 +462,8 @@ class Interp:
             self.require_positive(b, "modulo")
             return ops.mod_raw(a, b)
         if op is ast.Pow:
+            if is_z3(b) and getattr(self.reg, "sym_power", None) is not None:
+                return self.reg.sym_power(self, a, b)     # symbolic exponent: a ghost function of the contracts
             return ops.power(a, b)
         if op is ast.MatMult:
             raise Unsupported("@ on non-tensors")
@@ -1593,6 +1600,13 @@ class FrozenForall:
         return out
 
 
+class FStr(str):
+    """value of an f-string: the text with "{}" per field (a plain str for every consumer), plus the
+    values of the fields that are plain names (`.names`, `.values`) for models of format()"""
+    names: list = []
+    values: list = []
+
+
 class ExternalMethod:
     """Method inherited from a class outside the repo (e.g. pulser's EmulationConfig.__init__)."""
 
@@ -1636,7 +1650,7 @@ BUILTIN_NAMES = {
     "abs", "min", "max", "len", "range", "sum", "float", "int", "bool", "str", "isinstance", "tuple",
     "list", "set", "dict", "sorted", "enumerate", "zip", "all", "any", "type", "open", "print",
     "reversed", "map", "filter", "repr", "round", "divmod", "complex", "iter", "next", "hasattr",
-    "getattr", "setattr", "id", "super", "object", "frozenset", "callable", "pow",
+    "getattr", "setattr", "id", "super", "object", "frozenset", "callable", "pow", "format",
     "ValueError", "TypeError", "NotImplementedError", "RuntimeError", "AssertionError", "Exception",
     "RecursionError", "KeyError", "IndexError", "ZeroDivisionError", "AttributeError",
     "True", "False", "None", "NotImplemented", "Ellipsis",
